@@ -434,7 +434,7 @@ func run(r *report.Report) {
 		"RWMutex is modelled without writer preference; atomics and lock acquisitions are the only scheduling points (unsynchronised accesses are the business of the separate -race pass)",
 		"concurrency is bounded to 2-3 threads and 1-3 operations per thread; within that every interleaving is explored (the preemption bound exceeds the number of scheduling points)")
 	// 1. all 65536 counter states
-	t0 := time.Now()
+	t0 := r.Seconds()
 	var viol []explore.Violation
 	nv := 0
 	for s := 0; s < 65536; s++ {
@@ -446,10 +446,10 @@ func run(r *report.Report) {
 		}
 	}
 	r.AddSweep(report.Part{Name: "counter-states", Mode: "closure", Bound: "all 65536 values of the counter state", Evaluations: 65536, Nontrivial: 65536, States: 65536, Transitions: 65536 * 2,
-		Rule: "every possible value s of the counter: the two ids handed out from s (and the id after Reset following 0,1,2 allocations) against the cycle 1..65535; each s is a distinct state", Exhaustive: true, Wall: time.Since(t0).Seconds(), Violations: nv}, viol)
+		Rule: "every possible value s of the counter: the two ids handed out from s (and the id after Reset following 0,1,2 allocations) against the cycle 1..65535; each s is a distinct state", Exhaustive: true, Wall: r.Seconds() - t0, Violations: nv}, viol)
 	r.Sample("counter state 65535 -> ids 65535, 1 (wrap-around skips 0); state 0 -> ids 1, 2")
 	// 2. brute-force window
-	t0 = time.Now()
+	t0 = r.Seconds()
 	starts := []int{0, 1, 2, 3, 255, 256, 32767, 32768, 65533, 65534, 65535}
 	if r.Tier == "thorough" {
 		starts = nil
@@ -474,7 +474,7 @@ func run(r *report.Report) {
 		done++
 	}
 	r.AddSweep(report.Part{Name: "counter-window", Mode: "sweep", Bound: fmt.Sprintf("%d start values x 65535 consecutive allocations", done), Evaluations: int64(done) * 65535, Nontrivial: int64(done),
-		Rule: "the statement itself by brute force: from each start value, 65535 consecutive NextID results are non-zero and pairwise distinct (bitmap); non-trivial = start values", Exhaustive: complete, Wall: time.Since(t0).Seconds(), Violations: nv}, viol)
+		Rule: "the statement itself by brute force: from each start value, 65535 consecutive NextID results are non-zero and pairwise distinct (bitmap); non-trivial = start values", Exhaustive: complete, Wall: r.Seconds() - t0, Violations: nv}, viol)
 	// 3. store closure
 	c := storeClosure()
 	cr := c.Run(r.Deadline())
